@@ -17,7 +17,7 @@ RULE = ('cases: a history = constructor arguments + a list of ops (write v / rel
         'Exhaustive: every sequence of length <= 2 over priorities {1,8,16,none} x 3 values x {write,relinquish} per class; '
         'random length-100 sequences over all 16 priorities per class and path; binary classes with minimum on/off times '
         '0..10 s and clock advances 0..12 s.  non-trivial = at least one accepted command; distinct by (class, path, '
-        'constructor arguments, ops).  direct: the same domains, exhaustive up to length 3 (quick) / 4 (thorough) per class.')
+        'constructor arguments, ops).  direct: the same domains, exhaustive up to length 3 (quick; 4 for BinaryValue) / 4 (thorough; 5 for AnalogValue, BinaryValue) per class.')
 TRUSTED = ['model coq/theories/Prio.v written by hand after local/object.py:_Commando.__init__/_highest_priority_value/'
            'WriteProperty, MinOnOffTask, and the store-then-monitors tail of object.py:Property.WriteProperty; tie = correspondence',
            'values are compared through a per-class table of 3-4 distinct sample values (codes); the code only uses == on them',
@@ -631,7 +631,7 @@ def direct(rng, tier, focus=()):
             go(hh)
     # exhaustive sequences over 4 priorities x 3 values x {write, relinquish}; work units run in parallel processes
     LMAX = 4 if big else 3
-    long_classes = ['AnalogValueCmdObject', 'BinaryValueCmdObject']
+    long_classes = ['AnalogValueCmdObject', 'BinaryValueCmdObject'] if big else ['BinaryValueCmdObject']
     wire2 = CLASS_NAMES if big else WIRE_CLASSES
     units = []
     for cn in CLASS_NAMES:
